@@ -88,13 +88,19 @@ def build(rng: random.Random, combo: tuple, transport: str, order: str) -> dict:
         steps = [{"do": "connect", "login": login}] if rng.random() < 0.6 else [{"do": "start"}, {"do": "finish", "login": login}]
     steps.append({"do": "sleep", "d": 0.5})
     steps.append({"do": "disconnect"})
+    net_extra: dict = {}
+    if api_name in ("other", "dev", "simdev") and rng.random() < 0.3:
+        # the device is dialled under the mDNS name it announces itself with (a renamed or swapped device answers under
+        # the address of the old one): how it was reached has no say in the name check
+        client["addresses"] = [api_name + pick(rng, [".local", ".local.", ""])]
+        net_extra = {"mdns": {api_name: {"outcome": "ok", "v4": ["10.0.0.5"], "v6": [], "latency": 0.01}}}
     return {
         "family": "session",
         "combo": {"major": major, "minor": minor, "api_name": api_name, "noise_name": nname if transport == "noise" else None, "expected": expected, "login": login, "bad_pw": bad_pw, "order": order if (order != "reversed" or login) else "normal", "transport": transport, "trailer": trailer},
         "knobs": gen_knobs(rng),
         "client": client,
         "device": device,
-        "net": {"cuts": gen_cuts(rng), "c2d_latency": pick(rng, [0.0, 0.001]), "d2c_latency": [pick(rng, [0.0, 0.001, 0.02])]},
+        "net": {"cuts": gen_cuts(rng), "c2d_latency": pick(rng, [0.0, 0.001]), "d2c_latency": [pick(rng, [0.0, 0.001, 0.02])], **net_extra},
         "actors": [{"id": "a0", "at": {"t": 0.0}, "steps": steps}],
         # in a tenth of the runs the transport refuses every further write from the moment the device has sent its last
         # answer (a uvloop transport whose peer is gone): nothing the library may still want to say changes the verdict
